@@ -423,14 +423,17 @@ func stringFacts(s string) M {
 		}
 	}
 	// float reading: 2 = plain decimal / exponent literal, 1 = only strconv reads it (inf, nan, hex, underscores)
-	r["pf"], r["pfv"], r["pff"], r["pf32"] = 0, fl(0, 64), floatFacts(0), "0"
+	r["pf"], r["pfv"], r["pff"], r["pf32"], r["pfrange"] = 0, fl(0, 64), floatFacts(0), "0", 0
 	if f, err := strconv.ParseFloat(s, 64); err == nil || (err != nil && isRange(err)) {
 		r["pf"] = 1
 		if strings.Trim(s, "+-0123456789.eE") == "" && !math.IsInf(f, 0) {
 			r["pf"] = 2
 		}
-		if err != nil { // out of range: strconv returns +-Inf with an error; the functions under test treat it as unparsable
-			r["pf"] = 0
+		if err != nil { // out of range: strconv returns +-Inf together with an error (pfrange = sign)
+			r["pf"], r["pfrange"] = 0, 1
+			if f < 0 {
+				r["pfrange"] = -1
+			}
 		} else {
 			r["pfv"], r["pff"] = fl(f, 64), floatFacts(f)
 			f32, _ := strconv.ParseFloat(s, 32)
@@ -460,7 +463,7 @@ func isRange(err error) bool {
 
 // valueFacts: facts about a coercion input (dummy fields where they do not apply).
 func valueFacts(v any) M {
-	r := M{"sf": stringFacts(""), "ff": floatFacts(0), "nf": fl(0, 64), "uns": []int{0, 0}, "unsok": false, "tf": fl(0, 64)}
+	r := M{"sf": stringFacts(""), "ff": floatFacts(0), "nf": fl(0, 64), "uns": []int{0, 0}, "unsok": false, "tf": fl(0, 64), "tfx": false}
 	switch t := v.(type) {
 	case string:
 		r["sf"] = stringFacts(t)
@@ -496,8 +499,8 @@ func timeFacts(r M, t time.Time) {
 	ns := new(big.Int).Mul(big.NewInt(t.Unix()), big.NewInt(1000000000))
 	ns.Add(ns, big.NewInt(int64(t.Nanosecond())))
 	r["uns"], r["unsok"] = digitsOf(ns.String()), ns.IsInt64()
-	f, _ := new(big.Rat).SetFrac(ns, big.NewInt(1000000000)).Float64()
-	r["tf"] = fl(f, 64)
+	f, exact := new(big.Rat).SetFrac(ns, big.NewInt(1000000000)).Float64()
+	r["tf"], r["tfx"] = fl(f, 64), exact
 }
 
 func collectStrings(v any, set map[string]bool) {
